@@ -13,6 +13,7 @@ import "gopkg.in/yaml.v3"
 // between files linted concurrently" for these objects.
 func HarnessC10Echo(L int, prefix int) {
 	cfg := &Config{ConfigVariables: []string{"zeta", "alpha", "mid"}}
+	cfg.SelfHostedRunner.Labels = []string{"zeta-runner", "alpha-runner", "mid-*-runner"}
 	verifFreeze("shared Config", cfg)
 	verifMonitorGlobals(true)
 	doc, sites := verifFullSkeletonSites()
@@ -93,5 +94,125 @@ func HarnessC10Knows(lr, lp int) {
 	} else {
 		verifReach("unknown")
 		verifCheck(verifNot(want), "file-inside-project-not-attributed")
+	}
+}
+
+// ---- multi-file runs on a virtual file system ----
+
+var verifC10Files = map[string]string{}
+
+func verifC10ReadFile(name string) ([]byte, error) {
+	if s, ok := verifC10Files[absPath(name)]; ok {
+		return []byte(s), nil
+	}
+	return nil, &verifC10Err{"no such file " + name}
+}
+
+type verifC10Err struct{ s string }
+
+func (e *verifC10Err) Error() string { return e.s }
+
+var verifC10Cfg = map[string]*Config{}
+
+func verifC10RepoConfig(root string) (*Config, error) { return verifC10Cfg[root], nil }
+
+// verifC10FindProject: repositories /r and /s (the file-system walk of findProject on the virtual tree).
+func verifC10FindProject(path string) (*Project, error) {
+	d := absPath(path)
+	for _, root := range []string{"/r", "/s"} {
+		if d == root || (len(d) > len(root) && d[:len(root)+1] == root+"/") {
+			return NewProject(root)
+		}
+	}
+	return nil, nil
+}
+
+// The file content is a marker; Parse is replaced by the real workflow parser
+// on the YAML node tree the marker stands for (the label in it is symbolic, so
+// the text cannot go through the native YAML decoder).
+var verifC10Docs = map[string]*yaml.Node{}
+
+func verifC10Workflow(label string) *yaml.Node {
+	s := yScalar
+	doc := yDoc(yMap(s("on"), s("push"), s("jobs"), yMap(s("j"), yMap(
+		s("runs-on"), s(label),
+		s("steps"), ySeq(yMap(s("run"), s("echo ${{ vars.V }}"))),
+	))))
+	verifPlace(doc, 1, 0)
+	return doc
+}
+
+func verifC10Parse(b []byte) (*Workflow, []*Error) {
+	p := &parser{}
+	w := p.parse(verifC10Docs[string(b)])
+	return w, p.errors
+}
+
+func verifC10Digest(errs []*Error, path string) string {
+	var mine []*Error
+	for _, e := range errs {
+		if e.Filepath == path {
+			mine = append(mine, e)
+		}
+	}
+	return verifC10DigestAll(mine)
+}
+
+func verifC10DigestAll(errs []*Error) string {
+	out := ""
+	for _, e := range errs {
+		out += e.Kind + "@" + string(rune('0'+e.Line)) + ":" + e.Message + "\n"
+	}
+	return out
+}
+
+// HarnessC10MultiFile: two repositories with their own configuration (runner
+// labels, configuration variables); three workflow files whose runner label is
+// a symbolic two-byte string. Linting the files together (every order, project
+// detected per file) must give each file exactly the diagnostics it gets when
+// linted alone, and the configurations are not written.
+func HarnessC10MultiFile() {
+	orders := [][]int{{0, 1, 2}, {1, 0, 2}, {2, 1, 0}, {1, 2, 0}, {0, 1}, {1, 0}}
+	if verifIsNative() {
+		// native replay: a real directory tree with two repositories and real configuration files
+		lab := verifSymString("label", 2)
+		verifC10NativeMulti(lab, orders[verifChoose("order", len(orders))])
+		return
+	}
+	cfgR := &Config{ConfigVariables: []string{"V"}}
+	cfgR.SelfHostedRunner.Labels = []string{"zr", "lr"}
+	cfgS := &Config{}
+	cfgS.SelfHostedRunner.Labels = []string{"zs", "ls"}
+	verifC10Cfg = map[string]*Config{"/r": cfgR, "/s": cfgS}
+	lab := verifSymString("label", 2)
+	verifAssumeNote(verifAnd(verifAnd('a' <= lab[0], lab[0] <= 'z'), verifAnd('a' <= lab[1], lab[1] <= 'z')), "C10 multi-file: the runner label is two lower-case letters")
+	paths := []string{"/r/.github/workflows/a.yml", "/s/.github/workflows/b.yml", "/r/.github/workflows/c.yml"}
+	verifC10Files = map[string]string{paths[0]: "A", paths[1]: "B", paths[2]: "C"}
+	verifC10Docs = map[string]*yaml.Node{"A": verifC10Workflow(lab), "B": verifC10Workflow(lab), "C": verifC10Workflow("lr")}
+	verifOverride("Parse", verifC10Parse)
+	verifSetCwd("/")
+	verifOverride("os.ReadFile", verifC10ReadFile)
+	verifOverride("findProject", verifC10FindProject)
+	verifOverride("loadRepoConfig", verifC10RepoConfig)
+	single := make([]string, len(paths))
+	for k, p := range paths {
+		l := &Linter{projects: NewProjects(), cwd: "", out: nil}
+		errs, err := l.LintFile(p, nil)
+		verifCheck(err == nil, "lint-failed")
+		single[k] = verifC10Digest(errs, p)
+	}
+	verifFreeze("configuration of /r", cfgR)
+	verifFreeze("configuration of /s", cfgS)
+	ord := orders[verifChoose("order", len(orders))]
+	var args []string
+	for _, k := range ord {
+		args = append(args, paths[k])
+	}
+	l := &Linter{projects: NewProjects(), cwd: "", out: nil}
+	errs, err := l.LintFiles(args, nil)
+	verifCheck(err == nil, "lint-failed")
+	verifReach("linted")
+	for _, k := range ord {
+		verifCheckf(verifC10Digest(errs, paths[k]) == single[k], "file-linted-together-differs-from-file-linted-alone", paths[k])
 	}
 }
